@@ -169,7 +169,7 @@ func hsRun(o hsOpts) *hsResult {
 		p.Stream = stream.NewStream(ce)
 		p.Auth = security.NewAuthenticator(p.Cfg, p.Stream)
 		p.Neg, p.Err = p.Auth.ClientHandshake(cctx)
-		p.ClosedByEndpoint = ce.IsClosed() || p.Err != nil && o.ClientCtx != nil && ce.ClosedSoon(3*time.Second)
+		p.ClosedByEndpoint = ce.IsClosed() || p.Err != nil && o.ClientCtx != nil && o.ClientStall > 0 && ce.ClosedSoon(3*time.Second)
 		if p.Err != nil {
 			ce.Close()
 			return
@@ -181,13 +181,13 @@ func hsRun(o hsOpts) *hsResult {
 		}
 		if o.App {
 			if err := p.Stream.SendMessage(cctx, []byte("ping-from-client")); err != nil {
-				p.ClosedByEndpoint = ce.IsClosed() || (p.Err != nil || p.AppErr != nil) && o.ClientCtx != nil && ce.ClosedSoon(3*time.Second)
+				p.ClosedByEndpoint = ce.IsClosed() || (p.Err != nil || p.AppErr != nil) && o.ClientCtx != nil && o.ClientStall > 0 && ce.ClosedSoon(3*time.Second)
 				p.AppErr = err
 				ce.Close()
 				return
 			}
 			p.AppGot, p.AppErr = p.Stream.ReceiveCompleteMessage(cctx)
-			p.ClosedByEndpoint = ce.IsClosed() || (p.Err != nil || p.AppErr != nil) && o.ClientCtx != nil && ce.ClosedSoon(3*time.Second)
+			p.ClosedByEndpoint = ce.IsClosed() || (p.Err != nil || p.AppErr != nil) && o.ClientCtx != nil && o.ClientStall > 0 && ce.ClosedSoon(3*time.Second)
 			if p.AppErr != nil {
 				ce.Close()
 			}
@@ -212,7 +212,7 @@ func hsRun(o hsOpts) *hsResult {
 			p.Auth.ServerConfigForCommand = o.ServerCfgForCmd
 		}
 		p.Neg, p.Err = p.Auth.ServerHandshake(sctx)
-		p.ClosedByEndpoint = se.IsClosed() || p.Err != nil && o.ServerCtx != nil && se.ClosedSoon(3*time.Second)
+		p.ClosedByEndpoint = se.IsClosed() || p.Err != nil && o.ServerCtx != nil && o.ServerStall > 0 && se.ClosedSoon(3*time.Second)
 		if p.Err != nil {
 			se.Close()
 			return
@@ -224,13 +224,13 @@ func hsRun(o hsOpts) *hsResult {
 		}
 		if o.App {
 			p.AppGot, p.AppErr = p.Stream.ReceiveCompleteMessage(sctx)
-			p.ClosedByEndpoint = se.IsClosed() || (p.Err != nil || p.AppErr != nil) && o.ServerCtx != nil && se.ClosedSoon(3*time.Second)
+			p.ClosedByEndpoint = se.IsClosed() || (p.Err != nil || p.AppErr != nil) && o.ServerCtx != nil && o.ServerStall > 0 && se.ClosedSoon(3*time.Second)
 			if p.AppErr != nil {
 				se.Close()
 				return
 			}
 			if err := p.Stream.SendMessage(sctx, []byte("pong-from-server")); err != nil {
-				p.ClosedByEndpoint = se.IsClosed() || (p.Err != nil || p.AppErr != nil) && o.ServerCtx != nil && se.ClosedSoon(3*time.Second)
+				p.ClosedByEndpoint = se.IsClosed() || (p.Err != nil || p.AppErr != nil) && o.ServerCtx != nil && o.ServerStall > 0 && se.ClosedSoon(3*time.Second)
 				p.AppErr = err
 				se.Close()
 			}
